@@ -481,6 +481,13 @@ def run(rep, tier, seed):
     quick = tier == "quick"
     stats = collections.Counter()
     # boot sectors of the formatted configurations (to know where the table is, for the final dump)
+    # tables with an unused tail sector (the copies are further apart than their used part is long), found through the hook
+    global FORMATTED
+    FORMATTED = [f for f in FORMATTED if not f[0].endswith("-sparefat")]
+    for bits, start, root in ((12, 1000, "32"), (16, 8000, "32")):
+        ts = vlib.spare_sector_sectors(512, 512, start, bits, root=root)
+        if ts is not None:
+            FORMATTED.append(("fat%d-2fat-sparefat" % bits, ts * 512, "format 512 %d 512 %d %s 2 - - -" % (ts, bits, root)))
     heads = vlib.run_scripts([["dev %d 0" % size, "wlog 0", fmt, "dump 0 512"] for _, size, fmt in FORMATTED])
     regions = {}
     for (label, size, fmt), r in zip(FORMATTED, heads):
